@@ -1,10 +1,180 @@
 import VOPyVerif.Drv.Proto
-/-! Driver front end for property C06 (line protocol → executable model). -/
+import VOPyVerif.Model.Run
+/-! Driver front end for property C06 (whole runs: monotone, terminating, fully accounted).
+
+Formats (fields inside one argument are separated by `:`; `_` = empty list):
+
+* `<cfg>`   = `alg:K:m:batch:costs:budget:L:eps:maxDepth:branch` with
+  `alg ∈ paveba|pavebagp|pavebapartial|vogp|epal|vogpad|auer|naive|decoupled`, `costs` a rational
+  vector or `none`, `budget` a rational or `inf`.
+* `<state>` = `S:P:U:round:sampleCount:totalCost:latch:depths:parent` (index sets as nat lists,
+  `latch` `0/1`).
+* `<round>` = `n:dom:cov:pess:centres:rows:picks:refine:pareto` — the environment of one call:
+  `n` and three row-major `n·n` bit tables (`_` = all false; entry `i·n+j` answers the ordered pair
+  `(i, j)`; pairs the implementation never queried may be left `0`: every scan of the model is
+  existential), Auer's centres (row `i` = design `i`) and `beta_t` rows, the acquisition picks
+  `d,o;d,o;…`, VOGP_AD's refinement test `0/1`, DecoupledGP's new Pareto set.
+* `<out>`   = `done:req:refined:exceeds`, `req` = `d` or `d.o` entries separated by `,`,
+  `refined` a node or `-`.
+
+Operations:
+
+* `run <cfg> <round>*`           → `<state>:<out>` after every call from `init cfg`, joined by `|`
+* `runfrom <cfg> <state> <round>*` → the same from a given state
+* `spec <cfg> <state> <state'> <out>` → `ok` / `fail-<first failing clause>` : relation (R) `Run.specOk` on what the
+  implementation showed for one call
+* `init <cfg>`                   → `<state>` right after the constructor
+-/
 namespace VOPy.Drv.C06
-open VOPy VOPy.Proto
+open VOPy VOPy.Proto VOPy.Steps VOPy.Run
+
+def parseAlg : String → Option Alg
+  | "paveba" => some .paveba
+  | "pavebagp" => some .pavebaGP
+  | "pavebapartial" => some .pavebaPartial
+  | "vogp" => some .vogp
+  | "epal" => some .epal
+  | "vogpad" => some .vogpAD
+  | "auer" => some .auer
+  | "naive" => some .naive
+  | "decoupled" => some .decoupled
+  | _ => none
+
+def parseCfg (s : String) : Option Cfg :=
+  match s.splitOn ":" with
+  | [a, k, m, b, cs, bud, l, eps, md, br] => do
+    let alg ← parseAlg a
+    let K ← k.toNat?
+    let m ← m.toNat?
+    let batch ← b.toNat?
+    let costs ← if cs = "none" then some none else (parseVec cs).map some
+    let budget ← if bud = "inf" then some none else (parseRat bud).map some
+    let L ← l.toNat?
+    let eps ← parseRat eps
+    let maxDepth ← md.toNat?
+    let branch ← br.toNat?
+    some { alg, K, m, batch, costs, budget, L, eps, maxDepth, branch }
+  | _ => none
+
+def parseState (s : String) : Option State :=
+  match s.splitOn ":" with
+  | [sS, sP, sU, r, sc, tc, la, dp, pa] => do
+    let S ← parseNats sS
+    let P ← parseNats sP
+    let U ← parseNats sU
+    let round ← r.toNat?
+    let sampleCount ← sc.toNat?
+    let totalCost ← parseRat tc
+    let latch ← parseBool la
+    let depths ← parseNats dp
+    let parent ← parseNats pa
+    some { S, P, U, round, sampleCount, totalCost, latch, depths, parent }
+  | _ => none
+
+/-- `n·n` bit table (`_` = all false) as a relation -/
+def parseTable (n : Nat) (bits : String) : Option Rel :=
+  if bits = "_" then some (fun _ _ => false) else do
+    let bs ← parseBools bits
+    if bs.length ≠ n * n then none
+    else
+      let arr := bs.toArray
+      some (fun i j => if i < n ∧ j < n then arr.getD (i * n + j) false else false)
+
+def parsePicks (s : String) : Option (List (Nat × Nat)) := do
+  let ps ← parseNatss s
+  ps.mapM (fun p => match p with | [d, o] => some (d, o) | _ => none)
+
+def parseEnv (s : String) : Option Env :=
+  match s.splitOn ":" with
+  | [n, d, cv, pe, ce, ro, pk, rf, pa] => do
+    let n ← n.toNat?
+    let isDom ← parseTable n d
+    let isCov ← parseTable n cv
+    let pessDom ← parseTable n pe
+    let centres ← parseMat ce
+    let rows ← parseMat ro
+    let picks ← parsePicks pk
+    let refineTest ← parseBool rf
+    let pareto ← parseNats pa
+    let carr := centres.toArray
+    some { isDom, isCov, pessDom, centre := fun i => carr.getD i [], rows, picks, refineTest, pareto }
+  | _ => none
+
+def parseReq (s : String) : Option Req :=
+  match s.splitOn "." with
+  | [d] => d.toNat?.map (fun d => (d, none))
+  | [d, o] => do
+    let d ← d.toNat?
+    let o ← o.toNat?
+    some (d, some o)
+  | _ => none
+
+def parseOut (s : String) : Option Out :=
+  match s.splitOn ":" with
+  | [dn, rq, rf, ex] => do
+    let done ← parseBool dn
+    let req ← parseList "," parseReq rq
+    let refined ← if rf = "-" then some none else rf.toNat?.map some
+    let batchExceeds ← parseBool ex
+    some { done, req, refined, batchExceeds }
+  | _ => none
+
+def fmtReq : Req → String
+  | (d, none) => toString d
+  | (d, some o) => toString d ++ "." ++ toString o
+
+def fmtState (s : State) : String :=
+  ":".intercalate [fmtNats (sortNat s.S), fmtNats (sortNat s.P), fmtNats (sortNat s.U),
+    toString s.round, toString s.sampleCount, fmtRat s.totalCost, fmtBool s.latch,
+    fmtNats s.depths, fmtNats s.parent]
+
+def fmtOut (o : Out) : String :=
+  ":".intercalate [fmtBool o.done, fmtList "," fmtReq o.req,
+    (match o.refined with | none => "-" | some d => toString d), fmtBool o.batchExceeds]
+
+/-- states and outputs after every call -/
+def trajOut (c : Cfg) : State → List Env → List String
+  | _, [] => []
+  | s, e :: es =>
+    let r := step c s e
+    (fmtState r.1 ++ ":" ++ fmtOut r.2) :: trajOut c r.1 es
+
+def fmtTraj (l : List String) : String := if l.isEmpty then "_" else "|".intercalate l
+
+/-- name of the first clause of `Run.specOk` that fails (diagnostic only; the verdict is `specOk`) -/
+def diagnose (c : Cfg) (s s' : State) (o : Out) : String :=
+  if isDone c s then
+    if !sameState s s' then "changed-after-done"
+    else if !o.done then "flag-after-done"
+    else if !o.req.isEmpty then "sampled-after-done"
+    else "refined-after-done"
+  else if !(s'.round == s.round + 1) then "round"
+  else if !(s'.sampleCount == s.sampleCount + o.req.length) then "sample-count"
+  else if !decide (s'.totalCost = s.totalCost + reqsCost c o.req) then "total-cost"
+  else if !(o.done == isDone c s') then "done-flag"
+  else if !reqsOk c s s' o then "requests"
+  else if c.alg.elim && !disjointB s'.S s'.P then "disjoint"
+  else if c.alg.elim && !subsetB s'.U s'.P then "useful"
+  else "sets"
 
 def handle (args : List String) : String :=
   match args with
+  | ["init", c] =>
+    match parseCfg c with
+    | some c => fmtState (init c)
+    | none => bad
+  | "run" :: c :: rounds =>
+    match parseCfg c, rounds.mapM parseEnv with
+    | some c, some envs => fmtTraj (trajOut c (init c) envs)
+    | _, _ => bad
+  | "runfrom" :: c :: s :: rounds =>
+    match parseCfg c, parseState s, rounds.mapM parseEnv with
+    | some c, some s, some envs => fmtTraj (trajOut c s envs)
+    | _, _, _ => bad
+  | ["spec", c, s, s', o] =>
+    match parseCfg c, parseState s, parseState s', parseOut o with
+    | some c, some s, some s', some o => if specOk c s s' o then "ok" else "fail-" ++ diagnose c s s' o
+    | _, _, _, _ => bad
   | _ => bad
 
 end VOPy.Drv.C06
